@@ -12,9 +12,10 @@ import FordModel.Lemmas.Url
 import FordModel.Lemmas.StrLink
 import FordModel.Lemmas.ReadMore
 import FordModel.Lemmas.Relurl
+import FordModel.Lemmas.Assets
 import FordModel.Generated.C09
 namespace Ford.C09
-open Ford Ford.Path Ford.Nav Ford.Url Ford.StrLink Ford.ReadMore Ford.Relurl Ford.Generated.C09
+open Ford Ford.Path Ford.Nav Ford.Url Ford.StrLink Ford.ReadMore Ford.Relurl Ford.Assets Ford.Generated.C09
 
 /-! ## relative URLs: `os.path.relpath` and its resolution -/
 
@@ -337,6 +338,84 @@ theorem normalise_without_resolve_witness :
         (normalisePath { normalise := .abspath, relurlResolves := true } linkFS [['w', 'o', 'r', 'k'], ['d', 'o', 'c']] ++ [['p', 'r', 'o', 'c'], ['x']])
         = none :=
   ⟨linkFS_idem, by decide⟩
+
+/-! ## round 4: files that are not pages — assets of every page, copies next to static pages -/
+
+/-- Generic form of the asset clause, for any extracted tables: a link that passes `linkOk` names,
+    for **every** option combination and for all values of the computed parts of the path, a file
+    that `Documentation.writeout` creates. -/
+theorem asset_link_sound (T : Assets.Tables) (l : Assets.Link) (h : linkOk T l = true) (sh : Shape)
+    (ρ : Str → Str) (hc : eval sh l.cond = true) : inst ρ l.path ∈ written T sh ρ :=
+  linkOk_sound T l h sh ρ hc
+
+/-- Clause "resolves to a file that exists in the output directory … for every option combination",
+    for the URLs that every page carries in its head and navigation bar and that are neither list
+    nor entity pages: over the tables regenerated from **all** templates (every
+    `<tag attr="{{ project_url }}/<path>">`: icon, shipped and user style sheets, scripts, MathJax
+    configuration, search index and loader, `index.html`, `search.html`) and from
+    `Documentation.writeout` (every `shutil.copy` / `copytree` with its destination expression, the
+    listing of the package directories it copies, the search index, the pages with a constant output
+    file), whenever a template emits such a URL the file it names has been written — whatever the
+    values of `css`, `mathjax_config`, `search`, … and whatever the name of the user's files. -/
+theorem asset_links_written (l : Assets.Link) (hl : l ∈ assetTables.links) (sh : Shape) (ρ : Str → Str)
+    (hc : eval sh l.cond = true) : inst ρ l.path ∈ written assetTables sh ρ := by
+  have hall : assetTables.links.all (linkOk assetTables) = true := by decide +kernel
+  exact linkOk_sound assetTables l (List.all_eq_true.1 hall l hl) sh ρ hc
+
+/-- Why the destination of a copy must be the very path the template writes: a `writeout` that keeps
+    the extension of the user's icon (`favicon<suffix>`) while the template still says `favicon.png`
+    does not pass the check, and for an `.ico` icon the emitted link names a file that is not written. -/
+theorem asset_renamed_copy_witness :
+    let l : Assets.Link := ⟨['b'], ['l', 'i', 'n', 'k'], ['h', 'r', 'e', 'f'],
+      [.lit ['f', 'a', 'v', 'i', 'c', 'o', 'n', '.', 'p', 'n', 'g']], .tt⟩
+    let T : Assets.Tables := ⟨[l], [⟨[.lit ['f', 'a', 'v', 'i', 'c', 'o', 'n'], .dyn ['s']], .file, .tt⟩], []⟩
+    linkOk T l = false ∧
+      inst (fun _ => ['.', 'i', 'c', 'o']) l.path ∉ written T ⟨fun _ => 0, fun _ => false⟩ (fun _ => ['.', 'i', 'c', 'o']) := by
+  decide
+
+/-- The built-in Markdown aliases through which users link their own files: over the regenerated tables
+    (`aliases.update({...})` of `main`; the `copytree` of `media_dir`, `BasePage.page_dir`), `|url|` is the
+    output root and every other one (`|media|`, `|page|`) expands to exactly the directory below which
+    `writeout` reproduces the user's directory — so `|media|/<file>` names the copy of `<media_dir>/<file>`. -/
+theorem alias_roots_are_copied_trees (a : Str × List Piece) (ha : a ∈ assetTables.aliases) :
+    flat a.2 = [] ∨ ∃ w ∈ assetTables.writes, w.src = .user ∧ flat w.dest = flat a.2 := by
+  have hall : assetTables.aliases.all (aliasOk assetTables) = true := by decide +kernel
+  have h := List.all_eq_true.1 hall a ha
+  unfold aliasOk at h
+  simp only [Bool.or_eq_true, decide_eq_true_eq, List.any_eq_true, Bool.and_eq_true] at h
+  rcases h with h | ⟨w, hw, h1, h2⟩
+  · exact Or.inl h
+  · exact Or.inr ⟨w, hw, h1, h2⟩
+
+/-- Clause "from every page depth (… nested static pages)" for a page's own `copy_subdir`: over the
+    regenerated guard of the copy loop of `PagetreePage.writeout`, for **every** static page (index
+    page or not, any nesting depth of its directory, any output root), every directory `d` the page
+    names in `copy_subdir` and every file `f` below it, the relative URL `d/f` written on that page
+    resolves to a file that the page's own `writeout` creates. -/
+theorem page_copy_subdir_link_resolves (p : Assets.PageNode) (base : List Seg) (d : Seg)
+    (fs : List (List Seg)) (f : List Seg) (hmem : (d, fs) ∈ p.copySubdir) (hf : f ∈ fs)
+    (hb : Normal base) (hl : Normal p.loc) (hd : NormalSeg d) (hfn : Normal f) :
+    resolve (base ++ pageDirOf p) (d :: f) ∈ (pageWrites pageTables p).map (base ++ ·) := by
+  have hg : ∀ i, pageTables.copyGuard.runs i = true := by decide
+  exact copy_link_written pageTables p (hg _) base d fs f hmem hf hb hl hd hfn
+
+/-- … and for the other (non-Markdown) files of a page directory, which the node of the directory's
+    `index.md` carries: a relative URL `f` written on a page of that directory resolves to the copy
+    made when the index page is written. -/
+theorem page_file_link_resolves (p : Assets.PageNode) (hi : p.isIndex = true) (base : List Seg) (f : Seg)
+    (hf : f ∈ p.files) (hb : Normal base) (hl : Normal p.loc) (hfn : NormalSeg f) :
+    resolve (base ++ pageDirOf p) [f] ∈ (pageWrites pageTables p).map (base ++ ·) := by
+  have hg : pageTables.filesGuard.runs true = true := by decide
+  exact file_link_written pageTables p (by rw [hi]; exact hg) base f hf hb hl hfn
+
+/-- Why the copy loop must run for every page: if only the index page of a directory copied
+    `copy_subdir` directories, the page `guide/tutorial.md` with its own `copy_subdir: figs` would
+    link `figs/plot.png`, which nothing writes. -/
+theorem page_copy_index_only_witness :
+    let p : Assets.PageNode := ⟨[['g', 'u', 'i', 'd', 'e']], ['t', 'u', 't'], [(['f', 'i', 'g', 's'], [[['p', '.', 'p', 'n', 'g']]])], []⟩
+    resolve ([['o', 'u', 't']] ++ pageDirOf p) [['f', 'i', 'g', 's'], ['p', '.', 'p', 'n', 'g']] ∉
+      (pageWrites ⟨.indexOnly, .always⟩ p).map ([['o', 'u', 't']] ++ ·) := by
+  decide
 
 /-- Non-vacuity of the hypotheses above on a concrete entity: a variable of a type
     declared in a module gets `type/<type>.html#variable-<name>`. -/
